@@ -93,7 +93,7 @@ Definition read_input (fs : str -> option str) (c : cfg_input) : result (list st
   match c with
   | InStr s =>
       match splitlines_py s with
-      | [] => Raise E_InvalidParameters
+      | [] => Raise E_Other              (* the library's invalid-parameters exception *)
       | [_] => match fs s with
                | Some content => Ok (load content)
                | None => Raise E_Other            (* FileNotFoundError *)
